@@ -36,7 +36,7 @@ PROP = {
         "n_thorough": 3000,
     }],
     "rule": ("one real ExocoreApp is driven through a seeded history (scripted opening that fills every dogfood queue: opt-out of an active "
-             "validator, key replacement of an active validator, undelegations from active / opting-out / inactive operators, slash; then random "
+             "validator, key replacement of an active validator, undelegations from active / opting-out / inactive operators, slash, and the exact-boundary states of the genesis validators: a second token whose single depositor owns the whole staked supply and delegates all of it to one operator, a validator with exactly the minimum self delegation, a full validator set (max_validators = 2), opt-in and opt-out in one block, slash at the submitted height; then random "
              "deposits, withdrawals, delegations, undelegations, opt-in/out, key replacements, slashes, NST validator-list updates, oracle price submissions inside the open window of a round, block-time steps "
              "that stay inside / cross one / cross several epochs). After the Commit of every block, for each of the 8 modules: raw store dump -> real "
              "AppModule.ExportGenesis -> real ValidateGenesis -> all module stores wiped in a cache context and the real InitGenesis of every module "
@@ -44,7 +44,7 @@ PROP = {
              "has more than 3 entries"),
     "explanation": ("Coq theorems: a generic round-trip theorem for exporters that iterate a prefix and importers that write each row back under it "
                     "(instantiated for assets, epochs, exomint, the exported parts of oracle / feedistribution), whole-module round-trip theorems for "
-                    "dogfood (queues with reverse indexes, validators, total power) and delegation (records with both indexes, hold counts re-taken by "
+                    "operator (what survives for every state + exact round trip on op_wf states), dogfood (queues with reverse indexes, validators, total power) and delegation (records with both indexes, hold counts re-taken by "
                     "the dogfood import) under boolean well-formedness invariants that are themselves evaluated on every reached state (check_wf), "
                     "validation and idempotence corollaries, and vm_compute refutations with witness states for every store no exporter covers and "
                     "for each of the four repaired defects. The model is tied to the code by differential execution at every height (predicted store after import, "
